@@ -46,6 +46,12 @@ func (c *Softmax) forward(x tensor.Tensor) (y tensor.Tensor, err error) {
 		return
 	}
 
+	// keep the reduced dimension (size 1) so that the normaliser lines up with 'Dim' when broadcast
+	s, err = s.UnSqueeze(c.dim)
+	if err != nil {
+		return
+	}
+
 	return x.Div(s)
 }
 
